@@ -479,6 +479,10 @@ func runSCIONServer(ctx context.Context, log *slog.Logger, mtrcs *scionServerMet
 				key := provider.Current()
 				addedCookie := false
 				for range len(ntsreq.Cookies) + len(ntsreq.CookiePlaceholders) {
+					if len(cookies) != 0 &&
+						len(cookies) >= nts.MaxResponseCookies(len(ntsreq.UniqueID.ID), len(cookies[0])) {
+						break
+					}
 					encryptedCookie, err := serverCookie.EncryptWithNonce(key.Value, key.ID)
 					if err != nil {
 						log.LogAttrs(ctx, slog.LevelInfo, "failed to encrypt cookie", slog.Any("error", err))
@@ -487,6 +491,9 @@ func runSCIONServer(ctx context.Context, log *slog.Logger, mtrcs *scionServerMet
 					cookie := encryptedCookie.Encode()
 					cookies = append(cookies, cookie)
 					addedCookie = true
+				}
+				if addedCookie && nts.MaxResponseCookies(len(ntsreq.UniqueID.ID), len(cookies[0])) == 0 {
+					addedCookie = false
 				}
 				if !addedCookie {
 					log.LogAttrs(ctx, slog.LevelInfo, "failed to add at least one cookie")
